@@ -82,16 +82,25 @@ def ob_thresholds_creation(run, oid):
                 if a[0] == "bool" and a[2] is True and a[1][0][0] == "call" and a[1][0][1].startswith(EPOCH + "is_"):
                     nm = a[1][0][1][len(EPOCH):]
                     if nm == spec["quorum"]:
-                        found = a
+                        fs0 = set(n for (ow, n) in b.provenance(a[1][0][2][1])["fields"] if ow == SVS)
+                        if found is None or fs0 == spec["stakes"]:
+                            found = a
                     else:
                         wrong.append(nm)
             if not found:
                 o.fail(key + "|quorum", "%sCert constructed without a dominating %s(..) == true guard (found: %s)" % (kind, spec["quorum"], wrong or "none"), c.span,
                        {"guards": G.atoms_show(atoms)})
                 continue
-            rec = [lambda a: a[0] == "bool" and a[1][0][0] == "call" and a[1][0][1].startswith(EPOCH + "is_") and a[2] is True and a[1][0][1] == EPOCH + spec["quorum"],
+            def _own_quorum(a, spec=spec, b=b):
+                # the quorum predicate of THIS certificate type applied to THIS type's stake counters (another type's quorum test standing in front
+                # of the construction is a further condition, not the guard)
+                if not (a[0] == "bool" and a[2] is True and a[1][0][0] == "call" and a[1][0][1] == EPOCH + spec["quorum"]):
+                    return False
+                fs_ = set(n for (ow, n) in b.provenance(a[1][0][2][1])["fields"] if ow == SVS)
+                return fs_ == spec["stakes"]
+            rec = [_own_quorum,
                    lambda a: a[0] == "is_some" and a[2] is False and K.mentions_field(a[1][0], spec["once"] or "-", "SlotCertificates"),
-                   lambda a: a[0] == "bool" and a[2] is False and a[1][0][0] == "call" and a[1][0][1].endswith("SlotState::is_notar_fallback")]
+                   lambda a, kind=kind: kind == "NotarFallback" and a[0] == "bool" and a[2] is False and a[1][0][0] == "call" and a[1][0][1].endswith("SlotState::is_notar_fallback")]
             extra = D.extra_guards(prog, b, bb, rec)
             o.check(not extra, key + "|no-extra-condition", "no further condition delays the certificate ('exists as soon as the votes reach the threshold')", c.span, {"extra": G.atoms_show(extra)})
             stake_term = found[1][0][2][1]
